@@ -3,11 +3,15 @@
 //! peer that talks Modbus in clear.
 //!
 //! input line: space separated key=value
-//!   side=server|client          which rodbus endpoint is under test
+//!   side=server|client|ffiserver|fficlient   which rodbus endpoint is under test (ffiserver: the server
+//!                               created through the C ABI: rodbus_server_create_tls / _with_authz; fficlient:
+//!                               rodbus_client_channel_create_tls, "no expected name" = dns_name "*" with
+//!                               allow_server_name_wildcard)
 //!   min=12|13  mode=ca|ss  authz=0|1 (server side)  name=<expected server name>|- (client side, ca mode)
 //!   trust=<pem> cert=<pem> key=<pem>      material of the endpoint under test (trust = peer_cert_path)
 //!   peer=openssl|rodbus|plain   offer=12|13|both
-//!   pmode=ca|ss ptrust=<pem> pcert=<pem> pkey=<pem>   material of the peer
+//!   pmode=ca|ss ptrust=<pem> pcert=<pem> pkey=<pem> [pchain=<pem>]   material of the peer (pchain: intermediates
+//!                               an openssl peer sends along; a rodbus peer gets them inside pcert)
 //! output line:  <OK|REFUSED>:<negotiated version as reported by openssl or ->:<roles seen by the
 //!   authorization handler, ','-separated, or ->:<number of request-handler calls>
 //!   OK = a Modbus request was answered through the session (server side) / the client task
@@ -216,7 +220,7 @@ fn run_rodbus_client(rt: &tokio::runtime::Runtime, cfg: TlsClientConfig, addr: S
         Some(Box::new(StateListener { tx })),
     );
     let _ = rt.block_on(channel.enable());
-    let connected = wait_state(&rx, Duration::from_secs(5)) == Some(true);
+    let connected = wait_state(&rx, Duration::from_secs(15)) == Some(true);
     let mut answered = false;
     if connected && do_request {
         let param = RequestParam::new(UnitId::new(1), Duration::from_secs(2));
@@ -225,6 +229,201 @@ fn run_rodbus_client(rt: &tokio::runtime::Runtime, cfg: TlsClientConfig, addr: S
     }
     let _ = rt.block_on(channel.shutdown());
     (connected, answered)
+}
+
+// ---------------------------------------------------------------- the server created through the C ABI
+extern "C" fn ffi_authz_read_holding(_unit: u8, _range: rodbus_ffi::ffi::AddressRange, role: *const std::os::raw::c_char, ctx: *mut std::os::raw::c_void) -> std::os::raw::c_int {
+    let roles = unsafe { &*(ctx as *const Mutex<Vec<String>>) };
+    let r = unsafe { std::ffi::CStr::from_ptr(role) }.to_string_lossy().to_string();
+    roles.lock().unwrap().push(r);
+    rodbus_ffi::ffi::Authorization::Allow.into()
+}
+
+extern "C" fn ffi_configure_db(db: *mut rodbus_ffi::Database, _ctx: *mut std::os::raw::c_void) {
+    unsafe {
+        rodbus_ffi::ffi::rodbus_database_add_holding_register(db, 0, 42);
+    }
+}
+
+struct FfiServer {
+    runtime: *mut rodbus_ffi::Runtime,
+    server: *mut rodbus_ffi::Server,
+    addr: SocketAddr,
+    roles: &'static Mutex<Vec<String>>,
+}
+
+impl Drop for FfiServer {
+    fn drop(&mut self) {
+        unsafe {
+            rodbus_ffi::ffi::rodbus_server_destroy(self.server);
+            rodbus_ffi::ffi::rodbus_runtime_destroy(self.runtime);
+        }
+    }
+}
+
+fn start_ffi_server(kv: &HashMap<String, String>, ip: Ipv4Addr) -> Result<FfiServer, String> {
+    use rodbus_ffi::ffi;
+    use std::ffi::CString;
+    let c = |k: &str| CString::new(kv[k].as_str()).unwrap();
+    let (trust, cert, key, empty) = (c("trust"), c("cert"), c("key"), CString::new("").unwrap());
+    let ipc = CString::new(ip.to_string()).unwrap();
+    let roles: &'static Mutex<Vec<String>> = Box::leak(Box::new(Mutex::new(Vec::new())));
+    unsafe {
+        let mut runtime = std::ptr::null_mut();
+        if ffi::rodbus_runtime_create(ffi::RuntimeConfig { num_core_threads: 2 }, &mut runtime) != 0 {
+            return Err("NORUNTIME".to_string());
+        }
+        for _ in 0..20 {
+            let port = free_port(ip);
+            let map = ffi::rodbus_device_map_create();
+            let wh = ffi::WriteHandler { write_single_coil: None, write_single_register: None, write_multiple_coils: None, write_multiple_registers: None, on_destroy: None, ctx: std::ptr::null_mut() };
+            let dbc = ffi::DatabaseCallback { callback: Some(ffi_configure_db), on_destroy: None, ctx: std::ptr::null_mut() };
+            ffi::rodbus_device_map_add_endpoint(map, 1, wh, dbc);
+            let filter = ffi::rodbus_address_filter_any();
+            let cfg: ffi::TlsServerConfig = ffi::TlsServerConfigFields {
+                peer_cert_path: &trust,
+                local_cert_path: &cert,
+                private_key_path: &key,
+                password: &empty,
+                min_tls_version: if kv["min"] == "13" { ffi::MinTlsVersion::V13 } else { ffi::MinTlsVersion::V12 },
+                certificate_mode: if kv["mode"] == "ss" { ffi::CertificateMode::SelfSigned } else { ffi::CertificateMode::AuthorityBased },
+            }
+            .into();
+            let decode = ffi::DecodeLevel { app: 0, frame: 0, physical: 0 };
+            let mut server = std::ptr::null_mut();
+            let rc = if kv["authz"] == "1" {
+                let ah = ffi::AuthorizationHandler {
+                    read_coils: None,
+                    read_discrete_inputs: None,
+                    read_holding_registers: Some(ffi_authz_read_holding),
+                    read_input_registers: None,
+                    write_single_coil: None,
+                    write_single_register: None,
+                    write_multiple_coils: None,
+                    write_multiple_registers: None,
+                    on_destroy: None,
+                    ctx: roles as *const Mutex<Vec<String>> as *mut std::os::raw::c_void,
+                };
+                ffi::rodbus_server_create_tls_with_authz(runtime, ipc.as_ptr(), port, filter, 8, map, cfg, ah, decode, &mut server)
+            } else {
+                ffi::rodbus_server_create_tls(runtime, ipc.as_ptr(), port, filter, 8, map, cfg, decode, &mut server)
+            };
+            ffi::rodbus_address_filter_destroy(filter);
+            ffi::rodbus_device_map_destroy(map);
+            if rc == 0 && !server.is_null() {
+                return Ok(FfiServer { runtime, server, addr: SocketAddr::from((ip, port)), roles });
+            }
+        }
+        ffi::rodbus_runtime_destroy(runtime);
+    }
+    Err("NOSERVER".to_string())
+}
+
+extern "C" fn ffi_client_state(state: std::os::raw::c_int, ctx: *mut std::os::raw::c_void) {
+    let tx = unsafe { &*(ctx as *const Mutex<std::sync::mpsc::Sender<i32>>) };
+    let _ = tx.lock().unwrap().send(state);
+}
+
+/// returns Some(true) = Connected announced, Some(false) = WaitAfterFailedConnect, None = neither / creation failed
+fn run_ffi_client(kv: &HashMap<String, String>, addr: SocketAddr) -> Result<Option<bool>, String> {
+    use rodbus_ffi::ffi;
+    use std::ffi::CString;
+    let c = |k: &str| CString::new(kv[k].as_str()).unwrap();
+    let (trust, cert, key, empty) = (c("trust"), c("cert"), c("key"), CString::new("").unwrap());
+    let name = kv.get("name").cloned().unwrap_or_else(|| "-".to_string());
+    let wildcard = name == "-";
+    let dns = CString::new(if wildcard { "*" } else { name.as_str() }).unwrap();
+    let host = CString::new(addr.ip().to_string()).unwrap();
+    let (tx, rx) = std::sync::mpsc::channel::<i32>();
+    let ctx: &'static Mutex<std::sync::mpsc::Sender<i32>> = Box::leak(Box::new(Mutex::new(tx)));
+    unsafe {
+        let mut runtime = std::ptr::null_mut();
+        if ffi::rodbus_runtime_create(ffi::RuntimeConfig { num_core_threads: 2 }, &mut runtime) != 0 {
+            return Err("NORUNTIME".to_string());
+        }
+        let cfg: ffi::TlsClientConfig = ffi::TlsClientConfigFields {
+            dns_name: &dns,
+            peer_cert_path: &trust,
+            local_cert_path: &cert,
+            private_key_path: &key,
+            password: &empty,
+            min_tls_version: if kv["min"] == "13" { ffi::MinTlsVersion::V13 } else { ffi::MinTlsVersion::V12 },
+            certificate_mode: if kv["mode"] == "ss" { ffi::CertificateMode::SelfSigned } else { ffi::CertificateMode::AuthorityBased },
+            allow_server_name_wildcard: wildcard,
+        }
+        .into();
+        let listener = ffi::ClientStateListener { on_change: Some(ffi_client_state), on_destroy: None, ctx: ctx as *const _ as *mut std::os::raw::c_void };
+        let mut channel = std::ptr::null_mut();
+        let rc = ffi::rodbus_client_channel_create_tls(
+            runtime,
+            host.as_ptr(),
+            addr.port(),
+            4,
+            ffi::RetryStrategy { min_delay: 30000, max_delay: 30000 },
+            cfg,
+            ffi::DecodeLevel { app: 0, frame: 0, physical: 0 },
+            listener,
+            &mut channel,
+        );
+        if rc != 0 || channel.is_null() {
+            ffi::rodbus_runtime_destroy(runtime);
+            return Err(format!("CONFIG:{rc}"));
+        }
+        ffi::rodbus_client_channel_enable(channel);
+        let end = Instant::now() + Duration::from_secs(15);
+        let mut res = None;
+        loop {
+            let left = end.saturating_duration_since(Instant::now());
+            match rx.recv_timeout(left) {
+                Ok(2) => {
+                    res = Some(true);
+                    break;
+                }
+                Ok(3) => {
+                    res = Some(false);
+                    break;
+                }
+                Ok(_) => continue,
+                Err(_) => break,
+            }
+        }
+        ffi::rodbus_client_channel_destroy(channel);
+        ffi::rodbus_runtime_destroy(runtime);
+        Ok(res)
+    }
+}
+
+fn openssl_client_exchange(openssl: &str, addr: SocketAddr, pcert: &str, pkey: &str, ptrust: &str, offer: &str, pchain: &str) -> Result<(bool, String), String> {
+    let mut cmd = Command::new(openssl);
+    cmd.args(["s_client", "-connect", &addr.to_string(), "-cert", pcert, "-key", pkey, "-CAfile", ptrust, "-brief", "-ign_eof"]);
+    if !pchain.is_empty() {
+        cmd.args(["-cert_chain", pchain]);
+    }
+    if let Some(f) = offer_flag(offer) {
+        cmd.arg(f);
+    }
+    let mut p = Proc::spawn(cmd).map_err(|_| "NOOPENSSL".to_string())?;
+    if let Some(mut stdin) = p.child.stdin.take() {
+        let _ = stdin.write_all(&REQUEST);
+        let _ = stdin.flush();
+        let end = Instant::now() + Duration::from_secs(15);
+        loop {
+            if contains(&p.out.lock().unwrap(), &REPLY) || p.eof.load(Ordering::SeqCst) >= 2 || Instant::now() > end {
+                break;
+            }
+            std::thread::sleep(Duration::from_millis(5));
+        }
+        drop(stdin);
+    }
+    let ok = contains(&p.out.lock().unwrap(), &REPLY);
+    // openssl prints its summary on another stream: give it a moment
+    let end = Instant::now() + Duration::from_millis(if ok { 300 } else { 20 });
+    while p.version() == "-" && Instant::now() < end {
+        std::thread::sleep(Duration::from_millis(2));
+    }
+    let version = p.version();
+    p.finish();
+    Ok((ok, version))
 }
 
 fn cell(rt: &tokio::runtime::Runtime, line: &str, openssl: &str, ip: Ipv4Addr) -> String {
@@ -236,6 +435,23 @@ fn cell(rt: &tokio::runtime::Runtime, line: &str, openssl: &str, ip: Ipv4Addr) -
     let min = min_of(&get("min"));
     let offer = get("offer");
     let peer = get("peer");
+    if get("side") == "ffiserver" {
+        // the handler of a C-ABI server is its database (no callback on reads): calls = 1 iff answered
+        let sut = match start_ffi_server(&kv, ip) {
+            Ok(s) => s,
+            Err(e) => return e,
+        };
+        let (ok, version) = match openssl_client_exchange(openssl, sut.addr, &get("pcert"), &get("pkey"), &get("ptrust"), &offer, &get("pchain")) {
+            Ok(x) => x,
+            Err(e) => return e,
+        };
+        if !ok {
+            std::thread::sleep(Duration::from_millis(50));
+        }
+        let roles = sut.roles.lock().unwrap().clone();
+        drop(sut);
+        return format!("{}:{}:{}:{}", if ok { "OK" } else { "REFUSED" }, version, if roles.is_empty() { "-".to_string() } else { roles.join(",") }, if ok { 1 } else { 0 });
+    }
     if get("side") == "server" {
         let cfg = match server_config(&kv, "", min) {
             Ok(c) => c,
@@ -248,33 +464,13 @@ fn cell(rt: &tokio::runtime::Runtime, line: &str, openssl: &str, ip: Ipv4Addr) -
         let mut version = "-".to_string();
         let ok;
         match peer.as_str() {
-            "openssl" => {
-                let mut cmd = Command::new(openssl);
-                cmd.args(["s_client", "-connect", &sut.addr.to_string(), "-cert", &get("pcert"), "-key", &get("pkey"), "-CAfile", &get("ptrust"), "-brief", "-ign_eof"]);
-                if let Some(f) = offer_flag(&offer) {
-                    cmd.arg(f);
+            "openssl" => match openssl_client_exchange(openssl, sut.addr, &get("pcert"), &get("pkey"), &get("ptrust"), &offer, &get("pchain")) {
+                Ok((o, v)) => {
+                    ok = o;
+                    version = v;
                 }
-                let mut p = match Proc::spawn(cmd) {
-                    Ok(p) => p,
-                    Err(_) => return "NOOPENSSL".to_string(),
-                };
-                if let Some(mut stdin) = p.child.stdin.take() {
-                    let _ = stdin.write_all(&REQUEST);
-                    let _ = stdin.flush();
-                    // keep stdin open until the verdict is in
-                    let end = Instant::now() + Duration::from_secs(6);
-                    loop {
-                        if contains(&p.out.lock().unwrap(), &REPLY) || p.eof.load(Ordering::SeqCst) >= 2 || Instant::now() > end {
-                            break;
-                        }
-                        std::thread::sleep(Duration::from_millis(5));
-                    }
-                    drop(stdin);
-                }
-                ok = contains(&p.out.lock().unwrap(), &REPLY);
-                version = p.version();
-                p.finish();
-            }
+                Err(e) => return e,
+            },
             "rodbus" => {
                 let pmin = if offer == "13" { MinTlsVersion::V1_3 } else { MinTlsVersion::V1_2 };
                 let ccfg = match client_config(&kv, "p", pmin) {
@@ -320,12 +516,15 @@ fn cell(rt: &tokio::runtime::Runtime, line: &str, openssl: &str, ip: Ipv4Addr) -
                 if let Some(f) = offer_flag(&offer) {
                     cmd.arg(f);
                 }
+                if !get("pchain").is_empty() {
+                    cmd.args(["-cert_chain", &get("pchain")]);
+                }
                 let p = match Proc::spawn(cmd) {
                     Ok(p) => p,
                     Err(_) => return "NOOPENSSL".to_string(),
                 };
                 // wait until the port accepts (the probe connection is dropped at once)
-                let end = Instant::now() + Duration::from_secs(5);
+                let end = Instant::now() + Duration::from_secs(15);
                 let mut up = false;
                 while Instant::now() < end {
                     if std::net::TcpStream::connect(addr).is_ok() {
@@ -339,7 +538,17 @@ fn cell(rt: &tokio::runtime::Runtime, line: &str, openssl: &str, ip: Ipv4Addr) -
                     p.finish();
                     return format!("NOPEER:{}", t.lines().next().unwrap_or(""));
                 }
-                let (connected, _) = run_rodbus_client(rt, cfg, addr, false);
+                let connected = if get("side") == "fficlient" {
+                    match run_ffi_client(&kv, addr) {
+                        Ok(r) => r == Some(true),
+                        Err(e) => {
+                            p.finish();
+                            return e;
+                        }
+                    }
+                } else {
+                    run_rodbus_client(rt, cfg, addr, false).0
+                };
                 // give s_server a moment to print its summary
                 let end = Instant::now() + Duration::from_millis(if connected { 1500 } else { 100 });
                 while Instant::now() < end && p.version() == "-" {
